@@ -18,14 +18,14 @@ From Coq Require Import ZArith Bool.
 
 Record Ops (F : Type) := mkOps {
   add : F -> F -> F; sub : F -> F -> F; mul : F -> F -> F; div : F -> F -> F;
-  neg : F -> F; sqrt : F -> F; fabs : F -> F;
+  neg : F -> F; fsqrt : F -> F; fabs : F -> F;
   fmax : F -> F -> F;           (* f64::max *)
   ltb : F -> F -> bool;         (* <  (false when unordered) *)
   eqb : F -> F -> bool;         (* == (false when unordered; -0 == +0) *)
   of_Z : Z -> F                 (* literals: 0.0, 2.0, -1.0 *)
 }.
 Arguments add {F}. Arguments sub {F}. Arguments mul {F}. Arguments div {F}. Arguments neg {F}.
-Arguments sqrt {F}. Arguments fabs {F}. Arguments fmax {F}. Arguments ltb {F}. Arguments eqb {F}.
+Arguments fsqrt {F}. Arguments fabs {F}. Arguments fmax {F}. Arguments ltb {F}. Arguments eqb {F}.
 Arguments of_Z {F}.
 
 Section Model.
@@ -45,7 +45,7 @@ Local Notation cm1 := (of_Z o (-1)%Z).
 (** * point.rs *)
 Record Pt := mkPt { px : F; py : F }.
 Definition slen (p : Pt) : F := px p * px p + py p * py p.
-Definition len (p : Pt) : F := sqrt o (slen p).
+Definition len (p : Pt) : F := fsqrt o (slen p).
 Definition dp (p q : Pt) : F := px p * px q + py p * py q.
 Definition cp (p q : Pt) : F := px p * py q - py p * px q.
 Definition padd (p q : Pt) : Pt := mkPt (px p + px q) (py p + py q).
@@ -110,7 +110,7 @@ Definition intersect_cl (c : Circ) (l : Ln) : CL :=
     let ort2 := if line_eval l (cc c) >? c0 then pscale ort1 cm1 else ort1 in
     let par := mkPt (- py ort2) (px ort2) in
     let ort3 := pscale ort2 d in
-    let side := sqrt o (fmax o (cr c * cr c - d * d) c0) in
+    let side := fsqrt o (fmax o (cr c * cr c - d * d) c0) in
     CLIntersect (padd (padd (cc c) ort3) (pscale par side))
                 (psub (padd (cc c) ort3) (pscale par side)).
 
@@ -128,15 +128,40 @@ Definition intersect_cl_old (c : Circ) (l : Ln) : CL :=
 
 Inductive CCRes := CCNone | CCSame | CCTouchInside (p : Pt) | CCTouchOutside (p : Pt) | CCIntersect (p q : Pt).
 
-(** the radical line of [a], [b] as built by the code (through [Line::new]) *)
+(** the radical line of [a], [b] as built by the code before commit bc281aa (through [Line::new]) *)
 Definition radical_line (a b : Circ) : Ln :=
   line_new (- px (cc a) * c2 + px (cc b) * c2)
            (- py (cc a) * c2 + py (cc b) * c2)
            (px (cc a) * px (cc a) + py (cc a) * py (cc a) - px (cc b) * px (cc b) - py (cc b) * py (cc b)
             - cr a * cr a + cr b * cr b).
 
-(** after the swap: [cr a >= cr b] (or unordered) *)
+(** after the swap: [cr a >= cr b] (or unordered).  Crossing branch as repaired in commit bc281aa:
+    the two points are computed directly (foot [mid] of the common chord on the centre line at
+    distance [x] from [a.c], half chord [h]) instead of through [intersect_cl] on the radical line *)
 Definition intersect_cc_ordered (a b : Circ) : CCRes :=
+  let d := dist (cc a) (cc b) in
+  if (d <? EPS) && (cr a <? cr b + EPS) then CCSame
+  else if d <? cr a - cr b - EPS then CCNone
+  else if d <? cr a - cr b + EPS then
+    CCTouchInside (padd (cc a) (pscale (pdiv (psub (cc b) (cc a)) d) (cr a)))
+  else if d <? cr a + cr b - EPS then
+    let x := (d * d + cr a * cr a - cr b * cr b) / (c2 * d) in
+    let h := fsqrt o (fmax o (cr a * cr a - x * x) c0) in
+    let dir := pdiv (psub (cc b) (cc a)) d in
+    let mid := padd (cc a) (pscale dir x) in
+    let par := mkPt (- py dir) (px dir) in
+    CCIntersect (padd mid (pscale par h)) (psub mid (pscale par h))
+  else if d <? cr a + cr b + EPS then
+    CCTouchOutside (padd (cc a) (pscale (pdiv (psub (cc b) (cc a)) d) (cr a)))
+  else CCNone.
+
+(** the crossing branch BEFORE that repair: the radical line was built through [Line::new] and
+    handed to [intersect_cl], whose own absolute +-EPS test is about [cr a / cr b] times more
+    sensitive than the test on [d]; near a tangency of very unequal circles it answered [Touch]
+    (reported as [TouchOutside], even at an inner contact) with a point up to ~EPS * cr a / cr b
+    away from circle [b].  Kept as a named old variant for [c10_cc_old_near_tangent_refuted];
+    nothing else uses it. *)
+Definition intersect_cc_ordered_old (a b : Circ) : CCRes :=
   let d := dist (cc a) (cc b) in
   if (d <? EPS) && (cr a <? cr b + EPS) then CCSame
   else if d <? cr a - cr b - EPS then CCNone
